@@ -1,6 +1,7 @@
 (* C12 -- Moral graph adjacency is collider-connectedness and decides separation. Statements: C12/Spec.v *)
 From Coq Require Import List Arith.
-From PG Require Import Base.ListSet Graph.MGraph Graph.MSep C12.Model C12.Enum C12.Spec C12.Proofs C12.Bounded_3 C12.Bounded_4.
+From PG Require Import Base.ListSet Graph.MGraph Graph.MSep Graph.Walks C12.Model C12.Enum C12.Spec C12.Proofs C12.CriterionFwd
+  C12.Bounded_3 C12.Bounded_4.
 Import ListNotations.
 
 (* clause 1 (all graphs): adjacent in the moral graph <-> joined by an edge or by a path whose inner nodes are all colliders *)
@@ -31,6 +32,16 @@ Theorem moral_dag_is_nx : forall g a b, B g = [] -> In a (V g) -> In b (V g) ->
               exists c, In c (V g) /\ has_d g a c = true /\ has_d g b c = true)).
 Proof. exact C12.Proofs.moral_dag_is_nx. Qed.
 Print Assumptions moral_dag_is_nx.
+
+(* clause 2, one direction for ALL graphs and sizes (no arrowhead at an endpoint of an undirected edge; acyclicity not needed):
+   a vertex cut Z in the moral graph of the anterior subgraph m-separates X and Y
+   (equivalently: an m-connecting path yields a Z-avoiding connection in that moral graph) *)
+Theorem moral_criterion_fwd : forall g X Y Z,
+  ancestral_und g -> incl X (V g) -> incl Y (V g) -> incl Z (V g) ->
+  disjointb X Z = true -> disjointb Y Z = true ->
+  moral_sep g X Y Z = true -> msep g X Y Z.
+Proof. exact C12.CriterionFwd.moral_criterion_fwd. Qed.
+Print Assumptions moral_criterion_fwd.
 
 (* clause 2, for every graph of the domain of C01 on at most 3 nodes and all pairwise disjoint X, Y, Z:
    m-separated (by paths, Graph/MSep.v) <-> Z is a vertex cut in the moral graph of the anterior subgraph *)
